@@ -104,4 +104,35 @@ def countLoop : Nat → Bytes → Nat → Out Nat
 /-- `CountValues(b)`; every round consumes at least one byte, so fuel `len` suffices. -/
 def countValues (b : Bytes) : Out Nat := countLoop b.length b 0
 
+/-! ### Spec: the shallow reader expressed with `readHead` of Aqv.Model.Rlp -/
+
+/-- the shallow (header-only) reader expressed with the spec-level `readHead`: kind, content, rest. -/
+def shallowSplit (bs : Bytes) : Option (K × Bytes × Bytes) :=
+  match readHead bs with
+  | .error _ => none
+  | .ok (.byte b rest) => some (.byte, [b], rest)
+  | .ok (.str n rest) =>
+    if rest.length < n then none
+    else
+      match rest.take n with
+      | [x] => if x < 0x80 then none else some (.string, [x], rest.drop n)
+      | s => some (.string, s, rest.drop n)
+  | .ok (.list n rest) => if rest.length < n then none else some (.list, rest.take n, rest.drop n)
+
+/-- `bs` is a concatenation of `n` values each accepted by the shallow reader. -/
+def shallowCount : Nat → Bytes → Option Nat
+  | _, [] => some 0
+  | 0, _ :: _ => none
+  | f+1, b :: tl =>
+    match shallowSplit (b :: tl) with
+    | none => none
+    | some (_, _, rest) =>
+      match shallowCount f rest with
+      | some m => some (m + 1)
+      | none => none
+
+def Out.toOption {α : Type} : Out α → Option α
+  | .ok a => some a
+  | _ => none
+
 end Aqv.RlpRaw
